@@ -35,6 +35,9 @@ struct Case {
     end: Option<u64>,
     /// seed of the deterministic getrandom stream => iteration order of the subject's HashMaps (ties)
     hash_seed: u8,
+    /// competitor blocks with data are stored in the active chain's blk file, right after their parent
+    /// (| parent | stale | active | child |) instead of in a file of their own
+    same_file: bool,
     extras: Vec<Extra>,
     /// 0: all records once, log only; 1: data records first written header-only, compacted into a table, then upgraded; 2: table only
     form: u8,
@@ -113,7 +116,10 @@ pub fn run() -> Report {
     for s in &sets {
         for &form in &forms {
             for cb in &cbs {
-                cases.push(Case { end: None, hash_seed: 1, extras: s.clone(), form, cb });
+                cases.push(Case { end: None, hash_seed: 1, same_file: false, extras: s.clone(), form, cb });
+                if form == 0 {
+                    cases.push(Case { end: None, hash_seed: 1, same_file: true, extras: s.clone(), form, cb });
+                }
             }
         }
         // range ends at / just above / below a competitor's height, under three HashMap iteration orders
@@ -123,14 +129,14 @@ pub fn run() -> Report {
                 for end in [h, h + 1] {
                     if end >= 1 && end <= TIP {
                         for hash_seed in [1u8, 2, 6, 9, 17, 18, 19, 28, 47, 48] {
-                            cases.push(Case { end: Some(end), hash_seed, extras: s.clone(), form: 0, cb: "csvdump" });
+                            cases.push(Case { end: Some(end), hash_seed, same_file: false, extras: s.clone(), form: 0, cb: "csvdump" });
                         }
                     }
                 }
             }
         }
     }
-    rep.rule = "active chain of 5 blocks plus every set of <= 2 (thorough: <= 3) extra index records drawn from {header-only (VALID_TREE) at/below/beyond the tip, never-connected stale sibling with data, failed block with data, FAILED_CHILD header, once-active reorged-out 2-block branch, invalidated (FAILED_VALID/FAILED_CHILD, formerly fully validated) 3-block branch reaching above the tip, never-connected blocks with data above the tip}, each competitor at an occupied height in both LevelDB key orders (nonce ground); index histories {log only, header-only-then-upgraded across a compaction, table only}; --end at and just above each competitor's height under 10 HashMap iteration orders (seeds of the deterministic getrandom stream); csvdump and unspentcsvdump; non-trivial = distinct case with >= 1 extra record".into();
+    rep.rule = "active chain of 5 blocks plus every set of <= 2 (thorough: <= 3) extra index records drawn from {header-only (VALID_TREE) at/below/beyond the tip, never-connected stale sibling with data, failed block with data, FAILED_CHILD header, once-active reorged-out 2-block branch, invalidated (FAILED_VALID/FAILED_CHILD, formerly fully validated) 3-block branch reaching above the tip, never-connected blocks with data above the tip}, each competitor at an occupied height in both LevelDB key orders (nonce ground); competitor data stored in a file of its own or inside the active chain's file right after its parent; index histories {log only, header-only-then-upgraded across a compaction, table only}; --end at and just above each competitor's height under 10 HashMap iteration orders (seeds of the deterministic getrandom stream); csvdump and unspentcsvdump; non-trivial = distinct case with >= 1 extra record".into();
     rep.bound = json!({"active_chain": 5, "extras_per_index": if thorough { "<=3" } else { "<=2" }, "singles": singles.len(), "sets": sets.len(), "cases": cases.len()});
     rep.not_covered = vec!["two fully validated competing tips of equal height (not decidable from the index alone)".into(), "adversarial header bytes in header-only records".into()];
     let root = refmodel::world::scratch_root();
@@ -140,27 +146,26 @@ pub fn run() -> Report {
         |w, _i, c, acc| {
             let wk = Worker::new(&root, w);
             let mut world = World::new(btc);
-            // active chain in file 0
+            // active chain in file 0 (when `same_file`, the active blocks are placed after the competitors of their height, below)
             let mut recs: Vec<(IndexRec, bool)> = Vec::new(); // (record, is data-bearing)
-            for (h, b) in chain.blocks.iter().enumerate() {
-                let raw = b.ser();
-                let pos = world.place_raw(0, &raw, raw.len() as u32);
-                recs.push((IndexRec { hash: b.hash(), client_version: 270000, height: h as u64, status: if h == 0 { VALID_SCRIPTS | HAVE_DATA } else { ACTIVE }, ntx: b.txs.len() as u64, file: 0, data_pos: pos, undo_pos: 8 + h as u64, header: b.header.ser() }, true));
+            if !c.same_file {
+                for (h, b) in chain.blocks.iter().enumerate() {
+                    let raw = b.ser();
+                    let pos = world.place_raw(0, &raw, raw.len() as u32);
+                    recs.push((IndexRec { hash: b.hash(), client_version: 270000, height: h as u64, status: if h == 0 { VALID_SCRIPTS | HAVE_DATA } else { ACTIVE }, ntx: b.txs.len() as u64, file: 0, data_pos: pos, undo_pos: 8 + h as u64, header: b.header.ser() }, true));
+                }
             }
+            let comp_file: u64 = if c.same_file { 0 } else { 1 };
+            // competitor blocks are collected first and written height by height
+            let mut pending: Vec<(u64, Block, u64)> = Vec::new(); // (height, block, status)
             let mut foreign_txids: Vec<String> = Vec::new();
             for (k, x) in c.extras.iter().enumerate() {
                 let tag = (k as u32 + 1) * 16 + x.height as u32;
-                let mut add = |world: &mut World, b: &Block, height: u64, status: u64| {
+                let mut add = |_world: &mut World, b: &Block, height: u64, status: u64| {
                     for t in &b.txs {
                         foreign_txids.push(refmodel::ser::hash_hex(&t.txid()));
                     }
-                    let (file, pos) = if status & HAVE_DATA != 0 {
-                        let raw = b.ser();
-                        (1, world.place_raw(1, &raw, raw.len() as u32))
-                    } else {
-                        (0, 0)
-                    };
-                    recs.push((IndexRec { hash: b.hash(), client_version: 270000, height, status, ntx: if status & HAVE_DATA != 0 { b.txs.len() as u64 } else { 0 }, file, data_pos: pos, undo_pos: 77, header: b.header.ser() }, status & HAVE_DATA != 0));
+                    pending.push((height, b.clone(), status));
                 };
                 match x.kind {
                     Kind::HeaderOnly => add(&mut world, &competitor(&chain.blocks, x.height, tag, x.later, None), x.height, VALID_TREE),
@@ -188,6 +193,25 @@ pub fn run() -> Report {
                         add(&mut world, &b1, x.height, ACTIVE);
                         add(&mut world, &b2, x.height + 1, ACTIVE);
                     }
+                }
+            }
+            // write the blocks: competitors of height h go before the active block of height h when they share its file
+            let max_h = pending.iter().map(|p| p.0).max().unwrap_or(0).max(TIP);
+            for h in 0..=max_h {
+                for (ph, b, status) in pending.iter().filter(|p| p.0 == h) {
+                    let (file, pos) = if status & HAVE_DATA != 0 {
+                        let raw = b.ser();
+                        (comp_file, world.place_raw(comp_file, &raw, raw.len() as u32))
+                    } else {
+                        (0, 0)
+                    };
+                    recs.push((IndexRec { hash: b.hash(), client_version: 270000, height: *ph, status: *status, ntx: if status & HAVE_DATA != 0 { b.txs.len() as u64 } else { 0 }, file, data_pos: pos, undo_pos: 77, header: b.header.ser() }, status & HAVE_DATA != 0));
+                }
+                if c.same_file && (h as usize) < chain.blocks.len() {
+                    let b = &chain.blocks[h as usize];
+                    let raw = b.ser();
+                    let pos = world.place_raw(0, &raw, raw.len() as u32);
+                    recs.push((IndexRec { hash: b.hash(), client_version: 270000, height: h, status: if h == 0 { VALID_SCRIPTS | HAVE_DATA } else { ACTIVE }, ntx: b.txs.len() as u64, file: 0, data_pos: pos, undo_pos: 8 + h, header: b.header.ser() }, true));
                 }
             }
             match c.form {
